@@ -46,11 +46,21 @@ def r4(src):  # proxy.go: yield point at the head of handleLoop
     return out, n, 1
 
 
+def r5(src):  # mitm/mitm.go: yield points inside cert(): after the cache miss and before signing
+    n = 0
+    out, k = re.subn(r'(\tlog\.Debugf\("mitm: cache miss for %s", hostname\)\n)', r'\1\tverifYield("cert:miss")\n', src)
+    n += k
+    out, k = re.subn(r'(\n)(\traw, err := x509\.CreateCertificate\(rand\.Reader, tmpl, c\.ca,)', r'\1\tverifYield("cert:sign")\n\2', out)
+    n += k
+    return out, n, 2
+
+
 REWRITES = [
     ("R1", "h2/h2.go", r1),
     ("R2", "h2/relay.go", r2),
     ("R3", "trafficshape/bucket.go", r3),
     ("R4", "proxy.go", r4),
+    ("R5", "mitm/mitm.go", r5),
 ]
 
 
